@@ -1,5 +1,6 @@
 import Varint.Lemmas.Add
 import Varint.Bridge.TaggedAdd
+import Varint.Bridge.External
 import Varint.Lemmas.Tagged
 import Varint.Lemmas.External
 /-
@@ -161,6 +162,19 @@ theorem c_tagged_add (bs : List Nat) (stored origLen : Nat) (hslot : Slot bs sto
       have := tagged_add_grow_le_max stored origLen amount w h2
       simp only [Varint.Bridge.TaggedAdd.storesOf, Varint.Bridge.storesFrom_length]
       exact this
+
+/-- **on the machine translation of `varintExternalAdd_`** (`AddNoGrow` = force 0, `AddGrow` = force 1): for every slot
+    of 1..8 bytes, every int64 amount and every fuel ≥ 8 the C returns the model's width and its memory effect is the
+    model's — nothing (overflow, or no-grow with a result that does not fit), or the minimal little-endian bytes of
+    exactly old+amount, each stored once and none at or beyond their number. The model-level theorems below
+    (`ext_add_*`) then give the property's clauses. -/
+theorem c_ext_add (p : Nat → Nat) (w : Nat) (h1 : 1 ≤ w) (h8 : w ≤ 8) (hb : ∀ i, i < w → p i < 256) (amount : Int)
+    (force : Nat) (fuel : Nat) (hf : 8 ≤ fuel) :
+    ∃ stores, Varint.Gen.C.extAdd fuel p w amount force =
+        some ((External.add (ofLe ((List.range w).map p)) w amount (decide (force ≠ 0))).1, stores) ∧
+      Varint.Bridge.External.AddWrites stores
+        (External.add (ofLe ((List.range w).map p)) w amount (decide (force ≠ 0))).2 :=
+  Varint.Bridge.External.extAdd_eq p w h1 h8 hb amount force fuel hf
 
 /-- non-vacuity: a 2-byte slot holding 300, +5 fits, +70000 does not (no-grow leaves it alone, grow extends to 4) -/
 example : Slot [241, 60, 0, 0] 300 2 := by
